@@ -219,6 +219,15 @@ def classify_stdout(stdout, fmt, data):
     return "auto", "none", [list(r) for r in rows[1:]], probs
 
 
+NAME_SHAPES = ["project%d.tjp", "my project %d v2.1.tjp", "projet_\u00e9t\u00e9_%d.tjp", "\u8ba1\u5212%d.tjp", "2025-plan-%d.tjp", "%d.tjp",
+               "Pl\u00e4ne & Co (%d).tjp"]
+
+
+def input_name(k):
+    """file names of every shape a user may choose: blanks, dots, dashes, digits first, non-ASCII letters"""
+    return NAME_SHAPES[k % len(NAME_SHAPES)] % k
+
+
 def run_case(cls, channel, fmt, fault, out, ureports, k, keep_root=None):
     """one solitary invocation in a private sandbox; returns the observation dict"""
     root = keep_root or tempfile.mkdtemp(prefix="spverif-cli-", dir=SCRATCH)
@@ -227,7 +236,7 @@ def run_case(cls, channel, fmt, fault, out, ureports, k, keep_root=None):
             os.makedirs(os.path.join(root, d), exist_ok=True)
         absdir = os.path.join(root, "abs")
         data = make_input(cls, k, ureports, absdir)
-        in_path = os.path.join(root, "in", "project%d.tjp" % k)
+        in_path = os.path.join(root, "in", input_name(k))
         if channel == "file":
             if cls == "dir":
                 os.makedirs(in_path)
@@ -416,7 +425,7 @@ def cli_conc(req):
         for s in set(specs):
             cls, channel, fmt, ureports, k = s
             data = make_input(cls, k, ureports, absdir)
-            p = os.path.join(root, "in", "project%d_%s_%s.tjp" % (k, cls, abs(hash(ureports)) % 9973))
+            p = os.path.join(root, "in", "%s_%s_" % (cls, abs(hash(ureports)) % 9973) + input_name(k))
             if channel == "file":
                 if cls == "dir":
                     os.makedirs(p, exist_ok=True)
